@@ -15,6 +15,14 @@ from symx.instrument import load_instrumented
 from symx.sstr import SStr, CP, new_str, zt, cp_in_ivs, lift
 
 ID = "C07"
+TECHNIQUE = "differential bounded symbolic execution (symx + z3) of the real options.py against the real PyYAML scanner/parser on the same symbolic text"
+LEVEL_TEXT = ("Bounded symbolic verification: for every string within the stated length/alphabet/template bounds, z3 shows on every path of the real "
+              "tokenizer that (A) only TokenizeError with an in-range position can escape and the scan terminates, and (B) whenever PyYAML's own token stream "
+              "is inside the supported subset the (key, value) pairs are equal character by character. Stronger than sampling inside the bound, silent outside it; "
+              "this is the right level because the tokenizer's behaviour depends on each character only through a few class comparisons, so a path covers an "
+              "equivalence class of inputs (full Unicode N<=4 is 1.5e24 strings but 6585 paths).")
+LEVEL_NOTE = ("Trusted: the symx string model and AST instrumentation (validated every run by concrete differential self-tests and by replaying every counterexample on the "
+              "uninstrumented code), z3, PyYAML as the reference loader, the recorded subset refinements. Bounds per family are in the evidence file.")
 BUDGET_S = {"quick": 150, "thorough": 1500}
 EXPLANATION = (
     "Symbolic execution of the real options.py (instrumented at load from /repo's working tree) over symbolic "
@@ -35,11 +43,13 @@ NONTRIVIAL_RULE = "paths on which the reference (PyYAML) yielded >= 1 key/value 
 
 M = {}
 Y = {}
+SELFTEST_CANDIDATES = []
 PRINTABLE = ((0x09, 0x0A), (0x0D, 0x0D), (0x20, 0x7E), (0x85, 0x85), (0xA0, 0xD7FF), (0xE000, 0xFFFD), (0x10000, 0x10FFFF))
 
 # Every refinement of the subset is recorded with the solver witness that motivated it.
 SUBSET_REFINEMENTS = [
     ("'? '", "complex-key indicator: KeyToken without a simple key -> outside 'keys are plain or quoted scalars'"),
+    ('k: "\\U00110000"', "PyYAML's own scanner dies with ValueError/OverflowError in chr() for escapes above U+10FFFF: no reference value exists -> outside the subset (the tokenizer must raise TokenizeError there, obligation A)"),
     ("'a:\\n|'", "PyYAML accepts a block-scalar header at column 0 on the line after the key; YAML 1.2 s-separate(n+1) requires indentation -> value scalars must start at column > 0"),
 ]
 
@@ -103,6 +113,8 @@ def yaml_pairs(Loader, s):
             toks.append(loader.get_token())
     except yaml.error.YAMLError:
         return None
+    except (ValueError, OverflowError):
+        return None  # refinement 3: the reference itself crashes in chr()
     names = [type(t).__name__ for t in toks]
     if names != ["StreamStartToken", "StreamEndToken"]:
         if names[:2] != ["StreamStartToken", "BlockMappingStartToken"] or names[-2:] != ["BlockEndToken", "StreamEndToken"]:
@@ -126,6 +138,8 @@ def yaml_pairs(Loader, s):
         while loader.check_event():
             evs.append(loader.get_event())
     except yaml.error.YAMLError:
+        return None
+    except (ValueError, OverflowError):
         return None
     kinds = [type(e).__name__ for e in evs]
     if kinds == ["StreamStartEvent", "StreamEndEvent"]:
@@ -347,13 +361,22 @@ def selftest(seed):
     for _ in range(300):
         texts.append("".join(rnd.choice(alpha) for _ in range(rnd.randint(0, 14))))
     Real = _real_loader()
+    from symx.driver import call_with_timeout
+
+    SELFTEST_CANDIDATES.clear()
     for t in texts:
         def run(mod):
             try:
-                return ("ok", mod.options_to_items(t)[0])
+                return ("ok", call_with_timeout(mod.options_to_items, 3, t)[0])
+            except TimeoutError:
+                return ("timeout", None)
             except Exception as e:  # noqa
                 return (type(e).__name__, getattr(getattr(e, "problem_mark", None), "index", None))
-        a, b = run(real), run(opts)
+        a = run(real)
+        if a[0] == "timeout":
+            SELFTEST_CANDIDATES.append(("termination", {"text": t}))
+            continue
+        b = run(opts)
         if a != b:
             problems.append("instrumented options.py differs from real on %r: %r vs %r" % (t, a, b))
         try:
